@@ -167,7 +167,7 @@ func (fw *fworld) parentObj(ctl *fctl, i int, rev, extra string, nkids int, chil
 	for k := 0; k < nkids; k++ {
 		kids = append(kids, sim.KidSpec(kindInfo(childKind), "", fmt.Sprintf("%s-%s-k%d", strings.ToLower(childKind), name, k), "v1"))
 	}
-	p["spec"] = sim.Obj{"template": sim.Obj{"rev": rev}, "extra": extra, "kids": kids, "finalize": "step"}
+	p["spec"] = sim.Obj{"template": sim.Obj{"rev": rev}, "extra": extra, "kids": kids, "finalize": "step", "resyncAfter": float64(3600 + len(name))}
 	return p
 }
 
